@@ -238,10 +238,17 @@ def parse_primary(p, nostruct):
                 pat = ("wild",)
             else:
                 kk, vv = p.next()
-                if kk != "num":
+                if kk == "id":
+                    pat = ("path", [vv])          # a constant
+                elif kk != "num":
                     raise Unsupported(f"match pattern {vv!r}")
-                pat = ("num", vv)
+                else:
+                    pat = ("num", vv)
             p.expect("=>")
+            if p.at("{"):
+                arms.append((pat, ("block", parse_block(p))))
+                p.eat(",")
+                continue
             arms.append((pat, parse_expr(p)))
             if not p.eat(","):
                 break
@@ -344,6 +351,15 @@ def parse_stmt(p):
         e = parse_expr(p)
         p.expect(";")
         return ("let", name, mut, ty, e)
+    if k == "id" and v == "const":
+        p.next()
+        name = p.ident()
+        p.expect(":")
+        ty = parse_type(p)
+        p.expect("=")
+        e = parse_expr(p)
+        p.expect(";")
+        return ("let", name, False, ty, e)            # a local constant is an immutable binding
     if k == "id" and v == "return":
         p.next()
         e = None if p.at(";") else parse_expr(p)
